@@ -11,6 +11,9 @@ spec (plain tuples):
     ('dcaware', local_dc, per_remote_dc)      local_dc '' = infer
     ('whitelist', frozenset(allowed hosts))
     ('filter', child_spec, frozenset(excluded hosts))
+    ('filter', child_spec, ('dc', name))      predicate by location: hosts whose datacenter is `name` now are excluded
+    ('filter', child_spec, ('rack', name))    hosts whose rack is `name` now are excluded
+    ('filter', child_spec, ('onlydc', name))  hosts whose datacenter is not `name` now (also: unknown) are excluded
     ('wrap', child_spec)                      token-aware without routing key / default policy without target
 """
 
@@ -54,13 +57,27 @@ class Ref(object):
     def leaf(self):
         return self.child.leaf() if self.child is not None else self
 
-    def excluded(self):
-        """hosts that must never be yielded, whatever happens"""
+    def excluded(self, dcs=None, racks=None):
+        """hosts that must not be yielded now.  A predicate by address excludes a fixed set; a predicate by
+        location is evaluated on the hosts' location now (dcs / racks: {host: name or None}), whatever
+        the location was when the host was reported or yielded earlier."""
         out = set()
         if self.kind == 'filter':
-            out |= set(self.spec[2])
+            rule = self.spec[2]
+            if isinstance(rule, tuple):
+                what, name = rule
+                if what == 'dc':
+                    out |= set(h for h, dc in (dcs or {}).items() if dc == name)
+                elif what == 'rack':
+                    out |= set(h for h, rk in (racks or {}).items() if rk == name)
+                elif what == 'onlydc':
+                    out |= set(h for h, dc in (dcs or {}).items() if dc != name)
+                else:
+                    raise ValueError(rule)
+            else:
+                out |= set(rule)
         if self.child is not None:
-            out |= self.child.excluded()
+            out |= self.child.excluded(dcs, racks)
         return out
 
     def state(self):
@@ -68,14 +85,14 @@ class Ref(object):
         return (tuple(sorted(lf.live)), lf.local_dc)
 
     # ---- oracle
-    def judge(self, plan, dist, dcs, universe):
+    def judge(self, plan, dist, dcs, universe, racks=None):
         """plan: list of hosts; dist: {host: 'LOCAL'|'REMOTE'|'IGNORED'} as the policy under test
-        reports it (for every host of `universe`); dcs: {host: datacenter or None} now.
+        reports it (for every host of `universe`); dcs / racks: {host: datacenter / rack or None} now.
         -> list of (clause, text)"""
         bad = []
         if len(set(plan)) != len(plan):
             bad.append(('duplicate', 'plan %r yields a host twice' % (plan,)))
-        ex = self.excluded()
+        ex = self.excluded(dcs, racks)
         if self.kind == 'whitelist':
             ex = set(universe) - set(self.spec[1])
         hit = [h for h in plan if h in ex]
@@ -122,7 +139,7 @@ class Ref(object):
             got = set(per.get(dc, ()))
             # a filter in front of the policy removes hosts after the per-datacenter cut (documented caveat of
             # HostFilterPolicy), so the count is only demanded when nothing is filtered
-            if not self.excluded() and len(got) < min(n, len(hs)):
+            if not ex and len(got) < min(n, len(hs)):
                 bad.append(('remote-hosts-missing', 'remote dc %r has live hosts %r, plan %r uses %d of them, %d expected'
                             % (dc, sorted(hs), plan, len(got), min(n, len(hs)))))
         # consistency with the reported distance
@@ -157,6 +174,19 @@ def selftest():
     f.populate([0, 1, 2])
     assert f.judge([0, 2], {0: 'LOCAL', 1: 'IGNORED', 2: 'LOCAL'}, {}, [0, 1, 2]) == []
     assert f.judge([0, 1, 2], {0: 'LOCAL', 1: 'IGNORED', 2: 'LOCAL'}, {}, [0, 1, 2])[0][0] == 'excluded-host-yielded'
+    g = Ref(('filter', ('rr',), ('dc', 'b')))
+    g.populate([0, 1, 2])
+    assert g.excluded({0: 'a', 1: None, 2: 'b'}, {}) == {2}
+    assert g.judge([0, 1], {0: 'LOCAL', 1: 'LOCAL', 2: 'IGNORED'}, {0: 'a', 1: None, 2: 'b'}, [0, 1, 2]) == []
+    assert g.judge([0, 1, 2], {0: 'LOCAL', 1: 'LOCAL', 2: 'IGNORED'}, {0: 'a', 1: None, 2: 'b'}, [0, 1, 2])[0][0] == 'excluded-host-yielded'
+    # the same host back in an accepted datacenter is owed again
+    assert g.judge([0, 1], {0: 'LOCAL', 1: 'LOCAL', 2: 'LOCAL'}, {0: 'a', 1: None, 2: 'a'}, [0, 1, 2])[0][0] == 'live-host-missing'
+    o = Ref(('filter', ('rr',), ('onlydc', 'a')))
+    o.populate([0, 1])
+    assert o.excluded({0: 'a', 1: None}, {}) == {1}
+    k = Ref(('filter', ('rr',), ('rack', 'r2')))
+    k.populate([0, 1])
+    assert k.excluded({0: 'a', 1: 'a'}, {0: 'r1', 1: 'r2'}) == {1}
     w = Ref(('whitelist', frozenset([0])))
     w.populate([0, 1]); w.up(1, None)
     assert w.state()[0] == (0,)
